@@ -30,12 +30,25 @@ PY
   if [ $mrc -eq 0 ]; then caught=$((caught+1)); else missed=$((missed+1)); fi
   names="$names $(basename $(dirname $patch))/$(basename $patch)"
 done
-python3 - "$prop" "$caught" "$missed" "$names" <<'PY'
+# 3. must-stay-quiet corpus: behaviour-preserving refactors of functions under
+#    contract must not raise an alarm
+quiet=0; alarms=0
+for patch in /verif/selftest/refactors/${prop}_*.patch; do
+  [ -f "$patch" ] || continue
+  if ! (cd /repo && git apply --check "$patch" 2>/dev/null); then echo "thorough: refactor $(basename $patch) does not apply to the current tree: skipped"; continue; fi
+  r=$(/verif/selftest/run_refactor.sh "$patch" "$prop" 2>&1); rrc=$?
+  echo "thorough: $(echo "$r" | head -1)"
+  if [ $rrc -eq 0 ]; then quiet=$((quiet+1)); else alarms=$((alarms+1)); fi
+done
+python3 - "$prop" "$caught" "$missed" "$names" "$quiet" "$alarms" <<'PY'
 import json,sys
 prop,caught,missed,names=sys.argv[1],int(sys.argv[2]),int(sys.argv[3]),sys.argv[4].split()
+quiet,alarms=int(sys.argv[5]),int(sys.argv[6])
 p=f'/verif/evidence/{prop}.json'; e=json.load(open(p))
 e['coverage']['must_fail_corpus']={'patches':names,'caught':caught,'missed':missed}
+e['coverage']['must_stay_quiet_corpus']={'refactors_quiet':quiet,'false_alarms':alarms}
 json.dump(e,open(p,'w'),indent=1)
 PY
+if [ $alarms -gt 0 ]; then echo "thorough: $alarms behaviour-preserving refactor(s) raised an alarm: machinery error"; exit 2; fi
 if [ $missed -gt 0 ]; then echo "thorough: $missed must-fail patch(es) were NOT caught: machinery error"; exit 2; fi
 exit 0
